@@ -58,6 +58,8 @@ func NewUintListDecoder(reuseRecords bool) *UintListDecoder {
 }
 
 func (d *UintListDecoder) makeUintSlice(n uint32) []uint32 {
+	// n may come from an untrusted stream: allocate at most 1024 entries up front
+	n = minUint32(n, 1024)
 	if d.sl == nil {
 		return make([]uint32, 0, n)
 	}
